@@ -121,6 +121,8 @@ class BodyInfo:
                 # the dst is defined only on the normal edge; be conservative: do not kill
             elif tk == "assert":
                 rd(op_locals(t["cond"]))
+            elif tk == "return":
+                rd([0])
         live = [set() for _ in range(nb)]
         changed = True
         while changed:
